@@ -295,7 +295,11 @@ func (t *Thread) processIncomingInterest(packet *defn.Pkt) {
 
 	// If NextHopFaceId set, forward to that face (if it exists) or drop
 	if packet.NextHopFaceID != nil {
-		if dispatch.GetFace(*packet.NextHopFaceID) != nil {
+		if nextHopFace := dispatch.GetFace(*packet.NextHopFaceID); nextHopFace != nil &&
+			nextHopFace.Scope() == defn.NonLocal && len(interest.NameV) > 0 &&
+			bytes.Equal(interest.NameV[0].Val, LOCALHOST) {
+			core.LogWarn(t, "Interest ", packet.Name, " cannot be sent to non-local NextHopFaceId=", *packet.NextHopFaceID, " since violates /localhost scope - DROP")
+		} else if nextHopFace != nil {
 			core.LogTrace(t, "NextHopFaceId is set for Interest ", packet.Name, " - dispatching directly to face")
 			dispatch.GetFace(*packet.NextHopFaceID).SendPacket(dispatch.OutPkt{
 				Pkt:      packet,
@@ -352,6 +356,13 @@ func (t *Thread) processOutgoingInterest(
 	}
 	if outgoingFace.FaceID() == inFace && outgoingFace.LinkType() != defn.AdHoc {
 		core.LogDebug(t, "Attempting to send Interest=", packet.Name, " back to incoming face - DROP")
+		return false
+	}
+
+	// Check if violates /localhost
+	if outgoingFace.Scope() == defn.NonLocal && len(interest.NameV) > 0 &&
+		bytes.Equal(interest.NameV[0].Val, LOCALHOST) {
+		core.LogWarn(t, "Interest ", packet.Name, " cannot be sent to non-local FaceID=", nexthop, " since violates /localhost scope - DROP")
 		return false
 	}
 
